@@ -310,6 +310,8 @@ def oracle(ctx):
                 break
     # functionals x function kinds (shared workloads)
     for w in WL.WORKLOADS:
+        if w.name in ("rootfinder_7_unknowns", "hess_solve_cg") and not ctx.thorough():
+            continue
         for kind in ("pure", "nn", "explicit_plus_object"):
             t1, t2 = WL.leaves(0)
             vs = fkinds.variants(w.F, t1, t2, extra_first=w.extra_first, which=[kind])
